@@ -37,11 +37,15 @@ def main():
     with tempfile.TemporaryDirectory(prefix="rtasim-sweep-") as tmp:
         for seed in range(lo, hi + 1):
             for prop in props:
+                t1 = time.time()
                 p = subprocess.run(
                     [BIN, "check", prop, "--seed", str(seed), "--tier", tier, "--scale", str(scale),
                      "--evidence", os.path.join(tmp, "ev.json"), "--replay-dir", os.path.join(VERIF, "replays"),
                      "--known", os.path.join(VERIF, "known_findings.txt")],
                     stdout=subprocess.PIPE, stderr=subprocess.STDOUT, text=True)
+                if tier == "thorough":
+                    print("%s seed=%d %s rc=%d %.0fs" % (prop, seed, tier, p.returncode, time.time() - t1))
+                    sys.stdout.flush()
                 if p.returncode != 0:
                     bad += 1
                     print("ALARM %s seed=%d rc=%d" % (prop, seed, p.returncode))
